@@ -108,6 +108,19 @@ func evalC14(c C14Case) (*h.Finding, string) {
 	desc := fmt.Sprintf("field=%s value=%q serverUTF8=%t", c.Field, c.Value, c.UTF8)
 	cfg := h.Config{DSN: true, RRVS: true, RequireTLS: true, BinaryMIME: true, UTF8: c.UTF8, AllowInsecureAuth: true, MaxMessageBytes: c.Limit}
 	be := &h.Backend{Auth: true, Mechs: saslMechs, NewSASL: newSASL}
+	greetRefused := 0
+	if strings.HasPrefix(c.Route, "greeting-refused-") {
+		// the backend refuses the FIRST greeting of the connection with that code and accepts every later one
+		fmt.Sscanf(c.Route, "greeting-refused-%d", &greetRefused)
+		first := true
+		be.Override = func(kind, arg string) (error, bool) {
+			if kind == "NewSession" && first {
+				first = false
+				return &smtp.SMTPError{Code: greetRefused, EnhancedCode: smtp.EnhancedCode{greetRefused / 100, 3, 2}, Message: "not now"}, true
+			}
+			return nil, false
+		}
+	}
 	var mo *smtp.MailOptions
 	var ro *smtp.RcptOptions
 	from, to := "ok@a.example", "ok@b.example"
@@ -134,7 +147,7 @@ func evalC14(c C14Case) (*h.Finding, string) {
 			ro.Notify = append(ro.Notify, smtp.DSNNotify(n))
 		}
 		if c.Rcpt.RRVS != "" {
-			t, err := time.Parse(time.RFC3339, c.Rcpt.RRVS)
+			t, err := time.Parse(time.RFC3339Nano, c.Rcpt.RRVS)
 			if err != nil {
 				return h.F("harness-error", "bad time %q", c.Rcpt.RRVS), ""
 			}
@@ -161,7 +174,7 @@ func evalC14(c C14Case) (*h.Finding, string) {
 	leak, pan := h.Bubble(func() {
 		h.WithRealServer(cfg, be, c.TLS, func(cs *h.CS) {
 			cl := cs.Client
-			if c.Route != "" {
+			if c.Route != "" && greetRefused == 0 {
 				if c.Route == "auth-second" {
 					if preErr = cl.Auth(goodClient{}); preErr != nil {
 						return
@@ -225,6 +238,8 @@ func evalC14(c C14Case) (*h.Finding, string) {
 	if len(wantRcpt.Notify) == 0 {
 		wantRcpt.Notify = nil
 	}
+	// RRVS is preserved "to the second": a fraction of a second is dropped, never rounded up into the next second
+	wantRcpt.RequireRecipientValidSince = wantRcpt.RequireRecipientValidSince.Truncate(time.Second)
 	wantRcptStr := h.RcptOptsString(&wantRcpt)
 	if wantRcpt.OriginalRecipient == "" {
 		// an empty address means "no ORCPT"; the type alone is not transmitted
@@ -239,7 +254,7 @@ func evalC14(c C14Case) (*h.Finding, string) {
 	case mailErr != nil:
 		who := refusedBy(mailErr)
 		outcome = "mail-refused-by-" + who
-		if who == "server" && judged {
+		if who == "server" && judged && greetRefused == 0 {
 			return h.F("c14-server-refused", "%s: the client accepted the value but the server refused its own client's encoding: %v", desc, mailErr), outcome
 		}
 	case mail == nil:
@@ -326,7 +341,7 @@ func C14(tier string) int {
 		strLen, asciiLen = 4, 3
 		wireScalarsTo = 0x10ffff
 	}
-	run.Rule = fmt.Sprintf("(a) codec pairs called directly: decodeXtext(encodeXtext(s)) for ALL strings of <=%d octets over the 128 ASCII octets; utf-8-addr-xtext and -unitext pairs for EVERY Unicode scalar value individually; (b) over the wire (real Client.Mail/Rcpt -> real server, all extensions on, SMTPUTF8 on/off): ALL strings of <=%d symbols over %q as EnvelopeID, Auth (with '@d.example' appended), ORCPT rfc822 and ORCPT utf-8; every scalar up to U+%X (and every UTF-8 length / surrogate boundary +-2) inside a utf-8 ORCPT; (c) option subsets: all 2^4 NOTIFY subsets in two orders, RET, SIZE {0,1,2^31}, SMTPUTF8, REQUIRETLS over implicit TLS, RRVS times with zones, Auth nil / empty / mailbox, address forms; every option subset also as the SECOND transaction of a connection (after a transaction with other values and Reset, with and without a successful AUTH before it) and, for SIZE, against a server whose limit is exactly that size or one more. Distinct by construction; non-trivial = value in the judged domain (printable ASCII; for utf-8 ORCPT also DEL and non-ASCII; for Auth mailbox-shaped ASCII). Oracle: options seen by Session.Mail/Rcpt == options given; 'refused locally by the client' is fine, 'refused by the server' or 'different' is a violation inside the judged domain.", asciiLen, strLen, c14Alphabet, wireScalarsTo)
+	run.Rule = fmt.Sprintf("(a) codec pairs called directly: decodeXtext(encodeXtext(s)) for ALL strings of <=%d octets over the 128 ASCII octets; utf-8-addr-xtext and -unitext pairs for EVERY Unicode scalar value individually; (b) over the wire (real Client.Mail/Rcpt -> real server, all extensions on, SMTPUTF8 on/off): ALL strings of <=%d symbols over %q as EnvelopeID, Auth (with '@d.example' appended), ORCPT rfc822 and ORCPT utf-8; every scalar up to U+%X (and every UTF-8 length / surrogate boundary +-2) inside a utf-8 ORCPT; (c) option subsets: all 2^4 NOTIFY subsets in two orders, RET, SIZE {0,1,2^31}, SMTPUTF8, REQUIRETLS over implicit TLS, RRVS times with zones and with fractions of a second, a backend that refuses the first greeting with one of nine codes, Auth nil / empty / mailbox, address forms; every option subset also as the SECOND transaction of a connection (after a transaction with other values and Reset, with and without a successful AUTH before it) and, for SIZE, against a server whose limit is exactly that size or one more. Distinct by construction; non-trivial = value in the judged domain (printable ASCII; for utf-8 ORCPT also DEL and non-ASCII; for Auth mailbox-shaped ASCII). Oracle: options seen by Session.Mail/Rcpt == options given; 'refused locally by the client' is fine, 'refused by the server' or 'different' is a violation inside the judged domain.", asciiLen, strLen, c14Alphabet, wireScalarsTo)
 	run.Assumptions = []string{"Body is excluded: the client documents that it always sends BODY=8BITMIME", "RRVS compared to the second", "values outside the judged domain (control characters, non-ASCII in xtext fields, non-mailbox Auth) are executed but only counted"}
 
 	// (a) codec pairs
@@ -432,6 +447,20 @@ func C14(tier string) int {
 			}
 		}
 	}
+	// RRVS with a fraction of a second (time.Now() has one): preserved to the second means the fraction is dropped
+	for _, rrvs := range []string{"2014-04-03T23:01:00.4Z", "2014-04-03T23:01:00.5Z", "2014-04-03T23:01:00.999999999Z", "1999-12-31T23:59:59.6Z", "1999-12-31T23:59:59.500000001+05:30", "2030-06-01T00:00:00.000000001-08:00"} {
+		cases = append(cases, C14Case{Field: "rcptopts", UTF8: true, Rcpt: &RcptO{RRVS: rrvs}}, C14Case{Field: "rcptopts", UTF8: false, Rcpt: &RcptO{Notify: []string{"FAILURE"}, RRVS: rrvs}, Route: "auth-second"})
+	}
+	// a backend that refuses the first greeting of a connection (whatever the client does about it - give up, or
+	// greet again some other way): an envelope the client then ACCEPTS must still arrive with every option
+	for _, code := range []int{421, 450, 451, 501, 503, 504, 521, 550, 554} { // (not 500/502: for those the client falls back to HELO by design, and a HELO server offers no extension)
+		box2 := "auth+id@d.example"
+		route := fmt.Sprintf("greeting-refused-%d", code)
+		cases = append(cases,
+			C14Case{Field: "mailopts", UTF8: true, Mail: &MailO{Size: 1000, Return: "HDRS", EnvelopeID: "QQ314159", Auth: &box2}, Route: route},
+			C14Case{Field: "mailopts", UTF8: true, Mail: &MailO{UTF8: true}, Route: route},
+			C14Case{Field: "rcptopts", UTF8: true, Rcpt: &RcptO{Notify: []string{"FAILURE", "DELAY"}, OType: "RFC822", ORcpt: "orig@o.example", RRVS: "2014-04-03T23:01:00Z"}, Route: route})
+	}
 	empty, box := "", "auth+id@d.example"
 	for _, size := range []int64{0, 1, 1 << 31} {
 		for _, ret := range []string{"", "FULL", "HDRS"} {
@@ -513,5 +542,8 @@ func C14(tier string) int {
 			run.Sample("case", 8, map[string]interface{}{"field": c.Field, "value": fmt.Sprintf("%q", c.Value), "server_utf8": c.UTF8})
 		}
 	})
+	// histories of client calls (explicit-state search, checks/clientbfs.go)
+	run.Rule += clientSearchRule
+	clientSearch(run, "C14", 0)
 	return run.Finish()
 }
